@@ -98,6 +98,13 @@ def make_value(type_idx: int, tag: Any) -> Any:
     return v
 
 
+def safe(obj: Any) -> str:
+    try:
+        return repr(obj)
+    except Exception:  # noqa: BLE001
+        return f"<{type(obj).__name__} object>"
+
+
 class FactoryFailed(Exception):
     pass
 
@@ -290,7 +297,17 @@ class Engine:
                         async def start(self_inner) -> None:  # noqa: N805
                             await loop_body()
 
-                    await start_component(ActorComponent, timeout=None)
+                    if a.cid % 2:
+                        # ... a component tree started from inside the start() of a component of another tree (an application
+                        # embedding a plug-in's tree): the actor's calls are made two component contexts deep
+                        class OuterComponent(Component):
+                            async def start(self_inner) -> None:  # noqa: N805
+                                await start_component(ActorComponent, timeout=None)
+
+                        self.inc("contexts_driven_from_a_component_tree_started_inside_a_component")
+                        await start_component(OuterComponent, timeout=None)
+                    else:
+                        await start_component(ActorComponent, timeout=None)
                 else:
                     await loop_body()
         except BaseException as e:
@@ -597,6 +614,10 @@ class Engine:
         late_value = make_value(0, late_tag)
         self.pin(late_tag, late_value)
         late: dict[str, Any] = {}
+        first_made: dict[int, Any] = {}
+        child_view: dict[Any, Any] = {}
+        child_expected = {ti: {n: t for n, t in self.model.visible(cid, ti).items() if not (isinstance(t, tuple) and t and t[0] == "gen")}
+                          for ti in range(len(POOL))}
 
         def lookups_during_teardown() -> None:
             for (t, name), res in list(mc.resources.items()):
@@ -604,6 +625,29 @@ class Engine:
                     during_teardown[(t, name)] = ("ok", ctx.get_resource_nowait(POOL[t], name, optional=True))
                 except Exception as e:  # noqa: BLE001
                     during_teardown[(t, name)] = ("exc", e)
+            # a first lookup of a factory-made resource may just as well happen now (a callback that flushes through a lazily made
+            # client): the factory is called once, and the second lookup gets the very object the first one got
+            for (t, name), mf in list(mc.factories.items()):
+                if mf.is_async or any((tt, name) in mc.resources for tt in mf.types) or mf.fid in first_made:
+                    continue
+                before = self.factory_calls.get(mf.fid, 0)
+                try:
+                    one = ctx.get_resource_nowait(POOL[t], name)
+                    two = ctx.get_resource_nowait(POOL[t], name)
+                    first_made[mf.fid] = ("ok", one, two, self.factory_calls.get(mf.fid, 0) - before, t, name)
+                except Exception as e:  # noqa: BLE001
+                    first_made[mf.fid] = ("exc", e, None, 0, t, name)
+                if len(first_made) >= 2:
+                    break
+            # a child context created now (by a teardown callback that needs a scope of its own) still starts from what is visible
+            # in this context at this moment: every static resource, no generated one
+            try:
+                probe_child = self.Ctx()
+                child_view["parent_ok"] = probe_child.parent is ctx
+                for ti, T in enumerate(POOL):
+                    child_view[ti] = {n: self.tagname(o) for n, o in probe_child.get_resources(T).items()}
+            except Exception as e:  # noqa: BLE001
+                child_view["exc"] = e
             # ... and a resource may still be added while the teardown is running: a successful add like any other (announced once)
             try:
                 ctx.add_resource(late_value, f"late_{cid}", [POOL[0]])
@@ -622,10 +666,36 @@ class Engine:
                 self.bad("singleton-different-object" if isinstance(tag, tuple) and tag[0] == "gen" else "scope-wrong-object",
                          f"{cmd}: while context {cid} was being torn down, ({tname(POOL[t])}, {name!r}) resolved to {what}; before that it resolved to {tag}")
                 break
-        late_events: list[Any] = []
+        made_events: list[Any] = []
+        for fid, (kind, one, two, calls, t, name) in first_made.items():
+            self.inc("first_generations_during_teardown")
+            if kind == "ok":
+                made_events.extend(self.model.lookup(cid, t, name, False, False)[1])  # (announced like any other generation)
+            if kind == "exc":
+                self.bad("lookup[factory]-raised", f"{cmd}: during the teardown of context {cid}, the first lookup of ({tname(POOL[t])}, {name!r}) - made by "
+                                                   f"synchronous factory {fid} - raised {describe_exc(one)}")
+            elif one is not two:
+                self.bad("singleton-different-object", f"{cmd}: during the teardown of context {cid}, two successive lookups of ({tname(POOL[t])}, {name!r}) "
+                                                       f"returned two different objects ({safe(one)}, {safe(two)}); the factory was called {calls} time(s)")
+            elif calls != 1 or not is_product(one) or one.fid != fid:
+                self.bad("factory-call-count", f"{cmd}: during the teardown of context {cid}, factory {fid} was called {calls} time(s) for two lookups of "
+                                               f"({tname(POOL[t])}, {name!r}), which returned {safe(one)}")
+        if "exc" in child_view:
+            self.bad("scope-get_resources-raised", f"{cmd}: creating a child context (and reading get_resources() of it) from a teardown callback of context "
+                                                   f"{cid} raised {describe_exc(child_view['exc'])}")
+        elif child_view:
+            self.inc("children_created_while_the_parent_was_being_torn_down")
+            if not child_view.pop("parent_ok"):
+                self.bad("current-parent", f"{cmd}: a context created in a teardown callback of context {cid} does not have that context as parent")
+            for ti in range(len(POOL)):
+                if child_view.get(ti) != child_expected[ti]:
+                    self.bad("visible[construct-during-teardown]", f"{cmd}: a child created while context {cid} was being torn down sees for {tname(POOL[ti])}: "
+                                                                   f"{child_view.get(ti)}; visible in the parent at that moment (static resources): {child_expected[ti]}")
+                    break
+        late_events: list[Any] = list(made_events)
         if late.get("outcome") == "ok":
             self.inc("resources_added_during_teardown")
-            late_events = [(cid, [(0,)], f"late_{cid}", None, False)]
+            late_events.append((cid, [(0,)], f"late_{cid}", None, False))
         elif "outcome" in late:
             self.bad("add-unexpected-exception", f"{cmd}: add_resource() from a teardown callback of context {cid} raised {describe_exc(late['outcome'])}")
         mc.state = "closed"
@@ -929,6 +999,7 @@ class Engine:
             self.fail_next[cmd["fid"]] = 1
             self.inc("race_cases_with_failing_first_generation")
         results: list[Any] = []
+        by_racer: dict[int, Any] = {}
         intervals: list[Any] = []
         clock = [0]
 
@@ -949,6 +1020,7 @@ class Engine:
             clock[0] += 1
             intervals.append((start, clock[0]))
             results.append(r)
+            by_racer[i] = (cmd["types"][i] if "types" in cmd else t, r)
 
         async def call() -> None:
             async with create_task_group() as tg:
@@ -1009,6 +1081,18 @@ class Engine:
             if later[0] != "ok" or (tag in self.objs and later[1] is not self.objs[tag]):
                 self.bad("race-async-factory-overlap" if len(distinct) > 1 else "singleton-different-object",
                          f"{cmd}: a lookup after the race returned {self.tagname(later[1]) if later[0] == 'ok' else describe_exc(later[1])}, the first racer got {tag}", **witness)
+            # whatever a racer was given for the pair it asked for is what that pair resolves to from then on
+            for i, (ti, r) in sorted(by_racer.items()):
+                if r[0] != "ok":
+                    continue
+                again = await self.one_lookup(cid, "async", ti, name, False)
+                self.inc("racers_rechecked_against_a_later_lookup_of_their_own_pair")
+                if again[0] != "ok" or again[1] is not r[1]:
+                    self.bad("singleton-different-object",
+                             f"{cmd}: racing lookup #{i} was given {self.tagname(r[1]) if id(r[1]) in self.tag_of else safe(r[1])} for ({tname(POOL[ti])}, {name!r}); "
+                             f"a later lookup of that pair returns {(self.tagname(again[1]) if id(again[1]) in self.tag_of else safe(again[1])) if again[0] == 'ok' else describe_exc(again[1])}",
+                             **witness)
+                    break
             # events: exactly one generation event
             from asphalt.core import ResourceEvent
 
